@@ -137,8 +137,82 @@ fn kind_of(v: &KValue) -> &'static str {
     }
 }
 
+/// canonical rendering with a node budget (cyclic / heavily shared containers)
+fn canon_b(v: &KValue) -> String {
+    fn go(v: &KValue, out: &mut String, budget: &mut i32) {
+        *budget -= 1;
+        if *budget < 0 {
+            out.push_str("...");
+            return;
+        }
+        match v {
+            KValue::List(l) => {
+                out.push_str("L[");
+                let items: Vec<KValue> = l.data().iter().cloned().collect();
+                for (i, e) in items.iter().enumerate() {
+                    if i > 0 {
+                        out.push(',');
+                    }
+                    if *budget < 0 {
+                        break;
+                    }
+                    go(e, out, budget);
+                }
+                out.push(']');
+            }
+            KValue::Tuple(t) => {
+                out.push_str("T(");
+                for (i, e) in t.iter().enumerate() {
+                    if i > 0 {
+                        out.push(',');
+                    }
+                    if *budget < 0 {
+                        break;
+                    }
+                    go(e, out, budget);
+                }
+                out.push(')');
+            }
+            KValue::Map(_) => out.push('M'),
+            other => out.push_str(&canon(other)),
+        }
+    }
+    let mut s = String::new();
+    let mut budget = 400;
+    go(v, &mut s, &mut budget);
+    s
+}
+
 /// one call: returns the outcome class ("v:<canon>" | "e:<class>")
-fn one_call(w: &mut World, f: &KValue, module: &KValue, form: &str, items: &[usize], drive: bool) -> String {
+fn binary_op(name: &str) -> Option<BinaryOp> {
+    Some(match name {
+        "add" => BinaryOp::Add,
+        "subtract" => BinaryOp::Subtract,
+        "multiply" => BinaryOp::Multiply,
+        "divide" => BinaryOp::Divide,
+        "remainder" => BinaryOp::Remainder,
+        "power" => BinaryOp::Power,
+        "add_assign" => BinaryOp::AddAssign,
+        "subtract_assign" => BinaryOp::SubtractAssign,
+        "multiply_assign" => BinaryOp::MultiplyAssign,
+        "divide_assign" => BinaryOp::DivideAssign,
+        "remainder_assign" => BinaryOp::RemainderAssign,
+        "power_assign" => BinaryOp::PowerAssign,
+        "less" => BinaryOp::Less,
+        "equal" => BinaryOp::Equal,
+        _ => return None,
+    })
+}
+
+fn one_call(
+    w: &mut World,
+    f: &KValue,
+    module: &KValue,
+    form: &str,
+    items: &[usize],
+    drive: bool,
+    op: Option<BinaryOp>,
+) -> String {
     phase("pool");
     let mut args: Vec<KValue> = Vec::with_capacity(items.len());
     for &i in items {
@@ -152,14 +226,20 @@ fn one_call(w: &mut World, f: &KValue, module: &KValue, form: &str, items: &[usi
     // a fresh register stack per call (failed host calls leave registers behind, see mode "repeat")
     let mut child = w.svm.vm.spawn_shared_vm();
     let vm = &mut child;
-    let r = if form == "m" && !args.is_empty() {
+    let r = if let Some(op) = op {
+        if args.len() == 2 {
+            vm.run_binary_op(op, args[0].clone(), args[1].clone())
+        } else {
+            Ok(KValue::Null)
+        }
+    } else if form == "m" && !args.is_empty() {
         vm.call_instance_function(args[0].clone(), f.clone(), &args[1..])
     } else {
         vm.call_instance_function(module.clone(), f.clone(), &args[..])
     };
     match r {
         Ok(v) => {
-            let c = canon(&v);
+            let c = canon_b(&v);
             phase("display");
             let _ = vm.value_to_string(&v);
             if drive {
@@ -252,7 +332,11 @@ fn run_calls(jno: u64, job: &Value, w: &mut World, progress: &Progress) {
     let idxs = index_list(job, total);
     let mut hist: BTreeMap<String, u64> = BTreeMap::new();
     let mut done = 0u64;
+    let op = if module == "op" { binary_op(name) } else { None };
     let mut found = entries(&w.svm.vm).into_iter().find(|e| e.0 == module && e.1 == name);
+    if op.is_some() {
+        found = Some((module.to_string(), name.to_string(), KValue::Null, KValue::Null));
+    }
     if found.is_none() {
         say(&json!({"j": jno, "missing": format!("{module}.{name}")}));
         return;
@@ -266,7 +350,7 @@ fn run_calls(jno: u64, job: &Value, w: &mut World, progress: &Progress) {
             let e = found.as_ref().unwrap();
             (e.2.clone(), e.3.clone())
         };
-        let r = guarded(std::panic::AssertUnwindSafe(|| one_call(w, &f, &m, &form, &items, drive)));
+        let r = guarded(std::panic::AssertUnwindSafe(|| one_call(w, &f, &m, &form, &items, drive, op)));
         done += 1;
         match r {
             Ok(o) => {
@@ -282,7 +366,9 @@ fn run_calls(jno: u64, job: &Value, w: &mut World, progress: &Progress) {
                 // the VM may have been left mid-call: start over with a fresh one
                 let src = w.pool_src.clone();
                 *w = World::new(&src);
-                found = entries(&w.svm.vm).into_iter().find(|e| e.0 == module && e.1 == name);
+                if op.is_none() {
+                    found = entries(&w.svm.vm).into_iter().find(|e| e.0 == module && e.1 == name);
+                }
             }
         }
     }
